@@ -200,6 +200,20 @@ func NewClient(conn io.ReadWriteCloser, o ...ClientOpt) (*Client, error) {
 			return nil, ErrBadVersionString
 		}
 		c.version = version
+
+		// The server may announce a smaller msize than we asked for; that
+		// is the limit for everything we send (and ask it to send) from
+		// now on.
+		if rversion.MSize < c.messageSize {
+			if rversion.MSize <= msgDotLRegistry.largestFixedSize {
+				return nil, &ErrMessageTooLarge{
+					size:  rversion.MSize,
+					msize: msgDotLRegistry.largestFixedSize,
+				}
+			}
+			c.messageSize = rversion.MSize
+			c.payloadSize = roundDown(c.messageSize-msgDotLRegistry.largestFixedSize, 512)
+		}
 		break
 	}
 	return c, nil
